@@ -4,6 +4,7 @@ import (
 	_ "embed"
 	"encoding/json"
 	"fmt"
+	"go/types"
 	"os"
 	"path/filepath"
 	"sort"
@@ -27,6 +28,13 @@ var paramNamesJSON []byte
 //go:embed funcsigs.json
 var funcSigsJSON []byte
 
+// The field names of every named struct type of the module when the specifications were written.
+//
+//go:embed fieldnames.json
+var fieldNamesJSON []byte
+
+var recordedFieldNames map[string][]string
+
 var recordedParamNames map[string][]string
 
 func init() {
@@ -37,12 +45,17 @@ func init() {
 	if err := json.Unmarshal(funcSigsJSON, &load.RecordedFuncs); err != nil {
 		panic("funcsigs.json: " + err.Error())
 	}
+	if err := json.Unmarshal(fieldNamesJSON, &recordedFieldNames); err != nil {
+		panic("fieldnames.json: " + err.Error())
+	}
+	edt.FieldNames = func(k string) []string { return recordedFieldNames[k] }
 }
 
 // DumpParamNames writes the table for the current tree (all quick configurations).
 func DumpParamNames(out string) {
 	tab := map[string][]string{}
 	sigs := map[string]string{}
+	fields := map[string][]string{}
 	for _, id := range []string{"amd64", "purego", "f32"} {
 		p, err := load.Load(id, load.Opts{SSA: true, NoControls: true})
 		if err != nil {
@@ -50,6 +63,25 @@ func DumpParamNames(out string) {
 			os.Exit(2)
 		}
 		for _, pk := range p.Pkgs {
+			sc := pk.Types.Scope()
+			for _, n := range sc.Names() {
+				tn, ok := sc.Lookup(n).(*types.TypeName)
+				if !ok {
+					continue
+				}
+				st, ok := tn.Type().Underlying().(*types.Struct)
+				if !ok {
+					continue
+				}
+				var names []string
+				for i := 0; i < st.NumFields(); i++ {
+					names = append(names, st.Field(i).Name())
+				}
+				k := load.Rel(pk.Types) + "." + n
+				if _, seen := fields[k]; !seen {
+					fields[k] = names
+				}
+			}
 			for k, v := range load.DeclaredFuncs(pk.Types) {
 				if _, ok := sigs[k]; !ok {
 					sigs[k] = v
@@ -93,6 +125,11 @@ func DumpParamNames(out string) {
 		fmt.Fprintf(f, " %s: %s%s\n", kb, b, sep)
 	}
 	fmt.Fprintln(f, "}")
+	fb, _ := json.MarshalIndent(fields, "", " ")
+	if err := os.WriteFile(filepath.Join(filepath.Dir(out), "fieldnames.json"), append(fb, '\n'), 0o644); err != nil {
+		fmt.Fprintln(os.Stderr, err)
+		os.Exit(2)
+	}
 	b, _ := json.MarshalIndent(sigs, "", " ")
 	if err := os.WriteFile(filepath.Join(filepath.Dir(out), "funcsigs.json"), append(b, '\n'), 0o644); err != nil {
 		fmt.Fprintln(os.Stderr, err)
